@@ -6,8 +6,9 @@
     Clauses covered: "parsing any string either returns a tree or raises
     LatexWalkerParseError, never another exception type, and the error's
     position lies inside the input with line and column matching that
-    position".  (The clause about injected structural faults is not part of
-    this file.)
+    position"; and, at the end of the file, the clause about injected
+    structural faults for documents of the core grammar of C02 (PARTIAL: see
+    there).
 
     All theorems hold for EVERY string, EVERY context database (no
     well-formedness condition on the context turned out to be necessary: a
@@ -150,3 +151,615 @@ Print Assumptions C05_no_other_exception.
 Print Assumptions C05_no_other_exception_any_fuel.
 Print Assumptions C05_errors_located_top.
 Print Assumptions C05_error_line_col.
+
+
+(** * Injected structural faults (proofs in [Proofs/Fault*.v])
+
+    Clause: "a well-formed document to which a single unmatched opening or
+    closing brace, math delimiter, \begin or \end has been added outside
+    verbatim text and comments is always rejected".
+
+    PARTIAL.  The documents are those of the CORE grammar of C02
+    ([Doc/DocGrammar.v]: text, braced groups, macro calls with mandatory braced
+    arguments, [$ $] / [\( \)] / [\[ \]] / [$$ $$] formulas, comments, paragraph breaks;
+    [ok_doc] = its side conditions), ALL of them (unbounded depth and size), ALL
+    contexts.  The insertion point is an ITEM BOUNDARY of an arbitrarily nested
+    body, given by a zipper ([Proofs/FaultZip.v]): [zdoc path l1 l2 dtr] is the
+    document whose innermost designated body is [l1 ++ l2]; its text is
+    [zleft path l1 ++ zright path l2 dtr] ([C05_zdoc_text]) and the token is
+    inserted between the two halves.
+
+    Covered:
+      - [}] inserted in the top-level body or in a formula body, at any depth
+        ([C05_fault_closing_partial]: error "unexpected closing brace" AT the brace);
+      - [\)] / [\]] inserted anywhere except in the body of a formula of the same
+        kind (there it closes the formula), at any depth: error "unexpected
+        closing math delimiter" AT the token ([$] and [$$] are NOT stray closing
+        tokens: wherever they are not the expected closing delimiter they open
+        a formula, [C05_dollars_are_not_closing_tokens]; they are covered as
+        OPENING delimiters and by [C05_fault_dollar_in_dollars*]);
+      - [\end{x}] inserted anywhere, at any depth: error "unexpected \end" AT the token;
+        in these three cases whatever follows the token is irrelevant
+        ([C05_fault_closing_any_suffix_partial]: the left context and the items
+        before the token are well formed, the rest of the input is arbitrary);
+      - [{], [\begin{x}] (an environment without arguments, known to the context
+        or covered by its fallback) inserted at top level
+        ([C05_fault_opening_partial]): the new construct swallows the rest, error
+        "closing delimiter not found" (6) located right after the inserted
+        delimiter, raised when the input ends; [\(], [\[], [$], [$$] (and [\begin{x}]
+        with a math-mode body) likewise, in front of items that are also a
+        well-formed formula body (no formula directly among them) and, for [$],
+        not directly in front of another [$];
+      - the same opening delimiters inserted in a NESTED body, at any depth
+        ([C05_fault_opening_nested_partial]), when the closing delimiter of the
+        enclosing construct is not also the closing delimiter of the new one
+        ([{] in a [\( \)] or [\[ \]] formula; [$], [$$], [\(], [\[] in a group or macro
+        argument outside math mode; [\begin{x}] in a group, a macro argument, a
+        [\( \)] or [\[ \]] formula): the new construct runs into that closing
+        delimiter and its collector rejects it THERE (unexpected closing brace /
+        closing math delimiter);
+      - [}] inserted in a group or in the last argument of a macro call (an
+        argument read in the same math mode as the enclosing body), itself in a chain of
+        directly nested such constructs that stands in the top-level body or in a
+        formula body ([C05_fault_closing_brace_in_groups_partial]): every
+        construct of the chain is closed one brace early, the error "unexpected
+        closing brace" is AT the closing brace of the outermost one;
+      - [\)] / [\]] inserted in a formula of the same kind whose remaining body is
+        also well formed outside math mode
+        ([C05_fault_closing_math_same_partial]): the formula closes early, its own
+        closing delimiter is rejected;
+      - [$] inserted in a [$ $] formula (after at least one character of its
+        body), or [$$] inserted in a [$$ $$] formula (anywhere in its body),
+        whose remaining body is also well formed outside math mode and
+        whose later siblings are also well formed in math mode
+        ([C05_fault_dollar_in_dollars(_nested)_partial]): the formula closes
+        early, its own closing [$] / [$$] opens a formula that is never closed (top
+        level) / runs into the enclosing closing delimiter (nested body);
+      - [{] inserted in a group, itself in a chain of directly nested groups that
+        stands at top level ([C05_fault_opening_brace_in_groups_partial]: the
+        outermost group of the chain is never closed, error 6 right after its
+        opening brace, raised at the end of input) or in a [\( \)] / [\[ \]]
+        formula ([C05_fault_opening_brace_in_groups_math_partial]: rejected at
+        the formula's closing delimiter).
+    NOT covered (differential testing only): [}] inserted in a macro argument
+    that is not the last one or that changes the math mode (what follows is read
+    as the next argument / in another mode),
+    [{] inserted in a macro argument or in a group chain standing in a [$ $] / [$$ $$]
+    formula or macro argument, an opening delimiter inserted in a
+    [$ $] / [$$ $$] formula (the new construct's collector does not reject the
+    formula's closing [$] / [$$]: it opens a nested formula), a math delimiter or math-body environment in front of items
+    that contain a formula, environments with arguments, insertion points inside
+    an item (between the tokens of a macro call, inside whitespace), the grammar
+    beyond the core one. *)
+From PLV Require Import Doc.DocGrammar Proofs.RoundTripTok Proofs.FaultTok Proofs.FaultDoc Proofs.FaultPath
+                        Proofs.FaultClose Proofs.FaultOpen Proofs.FaultZip Proofs.FaultInject.
+
+(** the faulted text is the document's text with the token inserted *)
+Theorem C05_zdoc_text : forall path l1 l2 dtr,
+  unparse (zdoc path l1 l2 dtr) = zleft path l1 ++ zright path l2 dtr.
+Proof. exact zdoc_unparse. Qed.
+
+(** ** A stray closing token.  [stray_text c] is [}], [\)], [\]] or [\end{x}];
+    [stray_wf c]: [c] is not [SMClose MDollar] nor [SMClose MDollars] (the
+    side condition is necessary: a [$] / [$$] that is not the expected closing
+    delimiter OPENS a formula, see [C05_dollars_are_not_closing_tokens]), the
+    environment name is non-empty and made of environment-name characters; [closes_hole (lefts path)
+    c = false]: the token is not the closing delimiter of the innermost
+    construct of the path ([}] in a group or macro argument, [\)] in [\( \)],
+    [\]] in [\[ \]]); the path may go through formulas of all four kinds.  The strict parse fails with an error located exactly at
+    the inserted token, of the collector's raise site for that token
+    ([stray_what]: 2 = unexpected closing brace, 4 = unexpected closing math
+    delimiter, 3 = unexpected [\end]), the reader standing right after it. *)
+Theorem C05_fault_closing_partial : forall cx path l1 l2 dtr c,
+  ok_doc cx (zdoc path l1 l2 dtr) = true -> stray_wf c -> closes_hole (lefts path) c = false ->
+  let q := length (zleft path l1) in
+  exists e,
+    parse_top (zleft path l1 ++ stray_text c ++ zright path l2 dtr) false cx (walker_state cx)
+    = PErr e (q + length (stray_text c))
+    /\ pe_pos e = Some q /\ pe_what e = stray_what c.
+Proof. exact fault_closing_doc. Qed.
+
+(** the same with an ARBITRARY continuation [g]: only the left context
+    ([ok_lpath]: the frames of the nesting path, each with the items before it)
+    and the items [l1] of the innermost body before the token (with optional
+    whitespace [fws] in front of the token) have to be well formed *)
+Theorem C05_fault_closing_any_suffix_partial : forall cx path l1 fws c g,
+  let ps0 := walker_state cx in
+  ok_lpath cx ps0 path (hd_error (unparse_items l1 ++ fws ++ stray_text c)) = true ->
+  ok_items cx (lp_state cx ps0 path) l1 (hd_error (fws ++ stray_text c)) = true ->
+  ws_ok fws = true -> stray_wf c -> closes_hole path c = false ->
+  let q := length (lp_text path) + length (unparse_items l1) + length fws in
+  exists e,
+    parse_top (lp_text path ++ unparse_items l1 ++ fws ++ stray_text c ++ g) false cx ps0
+    = PErr e (q + length (stray_text c))
+    /\ pe_pos e = Some q /\ pe_what e = stray_what c.
+Proof. exact fault_closing. Qed.
+
+(** ** An unmatched opening delimiter: [open_text op] is [{] ([OBrace]), [$],
+    [\(], [\[], [$$] ([OMath k], all four kinds) or [\begin{x}] ([OBegin x]).  [open_side cx hs op l2
+    fol] (state [hs] of the body it is inserted in, items [l2] after it, then
+    [fol]): [open_wf] — a math delimiter stands outside math mode; the
+    environment name is valid, the context knows the environment (or has a
+    fallback) and it takes no arguments —; the items [l2] are well formed also in
+    the state of the new construct's body (automatic when that is [hs]: [{], an
+    environment whose body is not in math mode); [$] is not directly followed by
+    [$].
+
+    At top level the strict parse fails when the input ends (reader at
+    [length s]) with the general-nodes parser's error 6 ("stop condition not
+    met": the closing delimiter was not found), located right after the
+    inserted delimiter. *)
+Theorem C05_fault_opening_partial : forall cx l1 l2 dtr op,
+  ok_doc cx {| d_items := l1 ++ l2; d_trail := dtr |} = true -> open_side cx (walker_state cx) op l2 dtr ->
+  let s := unparse_items l1 ++ open_text op ++ unparse_items l2 ++ dtr in
+  exists e,
+    parse_top s false cx (walker_state cx) = PErr e (length s)
+    /\ pe_pos e = Some (length (unparse_items l1) + length (open_text op)) /\ pe_what e = 6.
+Proof. exact fault_opening_doc. Qed.
+
+(** In a nested body (path [path ++ [f]], innermost construct [f]) the new
+    construct reads on to the closing delimiter [c] of [f] ([closer_of f = Some
+    c]: [}] for a group or macro argument, [\)], [\]]; none for [$ $] and [$$ $$]); if that is
+    not its own closing delimiter ([stray_ok]) its collector rejects it: the
+    error is located AT the closing delimiter of [f] (after the rest [l2] of the
+    body and the whitespace [frame_tr f] in front of it), with the raise site of
+    that token. *)
+Theorem C05_fault_opening_nested_partial : forall cx path f l1 l2 dtr op c,
+  let hs := lp_state cx (walker_state cx) (lefts (path ++ [f])) in
+  ok_doc cx (zdoc (path ++ [f]) l1 l2 dtr) = true -> closer_of f = Some c ->
+  open_side cx hs op l2 (frame_tr f ++ stray_text c) ->
+  stray_ok (open_opts (open_state cx hs op) op) c ->
+  let q := length (zleft (path ++ [f]) l1) + length (open_text op) + length (unparse_items l2) + length (frame_tr f) in
+  exists e,
+    parse_top (zleft (path ++ [f]) l1 ++ open_text op ++ zright (path ++ [f]) l2 dtr) false cx (walker_state cx)
+    = PErr e (q + length (stray_text c))
+    /\ pe_pos e = Some q /\ pe_what e = stray_what c.
+Proof. exact fault_open_nested_doc. Qed.
+
+(** the general form: any left context, then well-formed items, the opening
+    delimiter, well-formed items, a closing token the new construct does not
+    accept, then ANYTHING *)
+Theorem C05_fault_opening_any_suffix_partial : forall cx path l1 fws op l2 tr c g,
+  let ps0 := walker_state cx in
+  let hs := lp_state cx ps0 path in
+  ok_lpath cx ps0 path (hd_error (unparse_items l1 ++ fws ++ open_text op)) = true ->
+  ok_items cx hs l1 (hd_error (fws ++ open_text op)) = true -> ws_ok fws = true ->
+  open_wf cx hs op ->
+  ok_items cx (open_state cx hs op) l2 (hd_error (tr ++ stray_text c)) = true -> ws_ok tr = true ->
+  stray_wf c -> stray_ok (open_opts (open_state cx hs op) op) c ->
+  (op = OMath MDollar -> hd_not (fun c => N.eqb c 36) (unparse_items l2 ++ tr ++ stray_text c ++ g)) ->
+  let q := length (lp_text path) + length (unparse_items l1) + length fws + length (open_text op)
+           + length (unparse_items l2) + length tr in
+  exists e,
+    parse_top (lp_text path ++ unparse_items l1 ++ fws ++ open_text op ++ unparse_items l2 ++ tr ++ stray_text c ++ g)
+              false cx ps0
+    = PErr e (q + length (stray_text c))
+    /\ pe_pos e = Some q /\ pe_what e = stray_what c.
+Proof. exact fault_open_nested. Qed.
+
+(** ** A closing brace inserted in a group, or in the LAST argument of a macro
+    call when that argument is read in the same math mode as the enclosing body
+    ([thru cx im f], [im] = the enclosing body is in math mode), closes that
+    construct early; the construct's own
+    closing brace then closes the enclosing one, and so on outwards through the
+    chain [chain] of directly nested such constructs (outermost first; [outer] is
+    the path down to the body that holds the outermost of them, a body that is
+    not a group's or macro argument's: top level or a formula).  The closing
+    brace of the OUTERMOST construct of the chain is the one that is rejected:
+    with [(L, W, R) = early chain l1 l2] — the faulted body reads as the items
+    [L], whitespace [W], the left-over brace, then [R] — the error is an
+    "unexpected closing brace" (2) located at that brace. *)
+Theorem C05_fault_closing_brace_in_groups_partial : forall cx outer chain l1 l2 dtr,
+  forallb (thru cx (f_in_math (ps_f (lp_state cx (walker_state cx) (lefts outer))))) chain = true ->
+  chain <> [] -> closes_hole (lefts outer) SBrace = false ->
+  ok_doc cx (zdoc (outer ++ chain) l1 l2 dtr) = true ->
+  let '(L, W, R) := early chain l1 l2 in
+  let q := length (lp_text (lefts outer)) + length (unparse_items L) + length W in
+  exists e,
+    parse_top (zleft (outer ++ chain) l1 ++ [125%N] ++ zright (outer ++ chain) l2 dtr) false cx (walker_state cx)
+    = PErr e (q + 1)
+    /\ pe_pos e = Some q /\ pe_what e = 2.
+Proof. exact fault_closing_brace_chain. Qed.
+
+(** ** A closing math delimiter [\)] / [\]] inserted in a formula of the SAME
+    kind ([f = FMath b ws k tr a], [k <> MDollar], [k <> MDollars]: for [$] /
+    [$$] the outcome is another one, see [C05_fault_dollar_in_dollars_partial]
+    below and [C05_dollars_are_not_closing_tokens]) closes it early; the rest
+    [l2] of the formula body is then read in the enclosing body, outside math
+    mode — hypothesis: it is well formed there too — and the formula's own
+    closing delimiter is left over: "unexpected closing math delimiter" (4)
+    located at it.  ([closes_hole (lefts path) (SMClose k) = false] holds for
+    every well-formed document: a formula does not stand directly in a formula.) *)
+Theorem C05_fault_closing_math_same_partial : forall cx path b ws k tr a l1 l2 dtr,
+  k <> MDollar -> k <> MDollars ->
+  let f := FMath b ws k tr a in
+  let hs := lp_state cx (walker_state cx) (lefts path) in
+  ok_doc cx (zdoc (path ++ [f]) l1 l2 dtr) = true ->
+  closes_hole (lefts path) (SMClose k) = false ->
+  ok_items cx hs l2 (hd_error (tr ++ m_close k)) = true ->
+  let L := b ++ Math ws k l1 [] :: l2 in
+  let q := length (lp_text (lefts path)) + length (unparse_items L) + length tr in
+  exists e,
+    parse_top (zleft (path ++ [f]) l1 ++ m_close k ++ zright (path ++ [f]) l2 dtr) false cx (walker_state cx)
+    = PErr e (q + 2)
+    /\ pe_pos e = Some q /\ pe_what e = 4.
+Proof. exact fault_close_math_same. Qed.
+
+(** ** A [$] inserted in a [$ $] formula (after at least one character of its
+    body: [$$] would be the display delimiter), or a [$$] inserted in a [$$ $$]
+    formula (anywhere in its body) — [f = FMath b ws k tr a], [dollar_kind k]:
+    [k = MDollar \/ k = MDollars] — closes it early; the rest [l2] of the body
+    is read in the enclosing body (hypothesis: well formed there) and the
+    formula's own closing [$] / [$$] OPENS a new formula that takes in what follows
+    (hypothesis: the later siblings [a] are well formed in math mode and, for
+    [$], do not start with [$]).  At top level that formula is never closed:
+    error 6 right after that [$] / [$$], raised at the end of input; in a nested
+    body it runs into the enclosing closing delimiter, rejected there. *)
+Theorem C05_fault_dollar_in_dollars_partial : forall cx b ws k tr a l1 l2 dtr,
+  dollar_kind k ->
+  let f := FMath b ws k tr a in
+  let ps0 := walker_state cx in
+  ok_doc cx (zdoc [f] l1 l2 dtr) = true -> (k = MDollar -> unparse_items l1 <> []) ->
+  ok_items cx ps0 l2 (hd_error (tr ++ m_close k)) = true ->
+  ok_items cx (ps_enter_math ps0 (Some (m_open k))) a (hd_error dtr) = true ->
+  (k = MDollar -> hd_not (fun c => N.eqb c 36) (unparse_items a ++ dtr)) ->
+  let s := zleft [f] l1 ++ m_close k ++ zright [f] l2 dtr in
+  let q := length (unparse_items (b ++ Math ws k l1 [] :: l2)) + length tr + length (m_close k) in
+  exists e, parse_top s false cx ps0 = PErr e (length s) /\ pe_pos e = Some q /\ pe_what e = 6.
+Proof. exact fault_dollar_early_top. Qed.
+
+Theorem C05_fault_dollar_in_dollars_nested_partial : forall cx path g b ws k tr a l1 l2 dtr c,
+  dollar_kind k ->
+  let f := FMath b ws k tr a in
+  let hs := lp_state cx (walker_state cx) (lefts (path ++ [g])) in
+  ok_doc cx (zdoc ((path ++ [g]) ++ [f]) l1 l2 dtr) = true -> closer_of g = Some c ->
+  (k = MDollar -> unparse_items l1 <> []) ->
+  ok_items cx hs l2 (hd_error (tr ++ m_close k)) = true ->
+  ok_items cx (ps_enter_math hs (Some (m_open k))) a (hd_error (frame_tr g ++ stray_text c)) = true ->
+  (k = MDollar -> hd_not (fun c0 => N.eqb c0 36) (unparse_items a ++ frame_tr g ++ stray_text c)) ->
+  let q := length (lp_text (lefts (path ++ [g]))) + length (unparse_items (b ++ Math ws k l1 [] :: l2))
+           + length tr + length (m_close k) + length (unparse_items a) + length (frame_tr g) in
+  exists e,
+    parse_top (zleft ((path ++ [g]) ++ [f]) l1 ++ m_close k ++ zright ((path ++ [g]) ++ [f]) l2 dtr)
+              false cx (walker_state cx)
+    = PErr e (q + length (stray_text c))
+    /\ pe_pos e = Some q /\ pe_what e = stray_what c.
+Proof. exact fault_dollar_early_nested. Qed.
+
+(** ** An opening brace inserted in a group: the group's closing brace closes
+    the NEW group, the enclosing group's closing brace closes the group, and so
+    on outwards through the chain [chain] of directly nested groups; the
+    outermost group of the chain ([chain_head chain] = the items before it and
+    the whitespace before its brace) is left without a closing brace and
+    swallows what follows ([late chain l1 l2] = its body as the faulted text
+    reads).  Standing at top level it is rejected when the input ends, error 6
+    located right after its opening brace; standing in a [\( \)] or [\[ \]]
+    formula [g] ([closer_of g = Some c], [c <> SBrace]; not [$ $] / [$$ $$]) it
+    runs into the formula's closing delimiter, rejected there. *)
+Theorem C05_fault_opening_brace_in_groups_partial : forall cx chain l1 l2 dtr,
+  forallb is_grp chain = true -> chain <> [] ->
+  ok_doc cx (zdoc chain l1 l2 dtr) = true ->
+  let s := zleft chain l1 ++ [123%N] ++ zright chain l2 dtr in
+  let q := length (unparse_items (fst (chain_head chain))) + length (snd (chain_head chain)) + 1 in
+  exists e, parse_top s false cx (walker_state cx) = PErr e (length s) /\ pe_pos e = Some q /\ pe_what e = 6.
+Proof. exact fault_open_brace_chain_top. Qed.
+
+Theorem C05_fault_opening_brace_in_groups_math_partial : forall cx outer g chain l1 l2 dtr c,
+  forallb is_grp chain = true -> chain <> [] ->
+  closer_of g = Some c -> c <> SBrace ->
+  ok_doc cx (zdoc ((outer ++ [g]) ++ chain) l1 l2 dtr) = true ->
+  let q := length (lp_text (lefts (outer ++ [g]))) + length (unparse_items (fst (chain_head chain)))
+           + length (snd (chain_head chain)) + 1 + length (unparse_items (late chain l1 l2)) + length (frame_tr g) in
+  exists e,
+    parse_top (zleft ((outer ++ [g]) ++ chain) l1 ++ [123%N] ++ zright ((outer ++ [g]) ++ chain) l2 dtr)
+              false cx (walker_state cx)
+    = PErr e (q + length (stray_text c))
+    /\ pe_pos e = Some q /\ pe_what e = stray_what c.
+Proof. exact fault_open_brace_chain_math. Qed.
+
+(** ** Non-vacuity *)
+Open Scope N_scope.
+
+(** the document [a {b $c \textbf{d e} f$ g} h ]: the designated body is that
+    of [\textbf]'s argument, inside a formula, inside a group; the insertion
+    point is between [d] and [ e] *)
+Definition c05_path : list frame :=
+  [FGrp [Text [] [97]] [32] [] [Text [32] [104]];
+   FMath [Text [] [98]] [32] MDollar [] [Text [32] [103]];
+   FMac [Text [] [99]] [32] [116;101;120;116;98;102] [] [] [] [] [Text [32] [102]]].
+Definition c05_l1 : list item := [Text [] [100]].
+Definition c05_l2 : list item := [Text [32] [101]].
+
+Example C05_fault_closing_nonvacuous :
+  ok_doc default_ctx (zdoc c05_path c05_l1 c05_l2 [32]) = true /\
+  unparse (zdoc c05_path c05_l1 c05_l2 [32])
+  = [97;32;123;98;32;36;99;32;92;116;101;120;116;98;102;123;100;32;101;125;32;102;36;32;103;125;32;104;32] /\
+  (* \) \] \end{zq} are not the closing delimiter of a macro argument: rejected at position 17 *)
+  forallb (fun c =>
+    negb (closes_hole (lefts c05_path) c) &&
+    match parse_top (zleft c05_path c05_l1 ++ stray_text c ++ zright c05_path c05_l2 [32]) false
+                    default_ctx (walker_state default_ctx) with
+    | PErr e p => Nat.eqb p (17 + length (stray_text c)) && Nat.eqb (pe_what e) (stray_what c)
+                  && match pe_pos e with Some q => Nat.eqb q 17 | None => false end
+    | _ => false end) [SMClose MParen; SMClose MBracket; SEnd [122;113]] = true /\
+  (* the brace would close the argument: not covered by the theorem (it is rejected later) *)
+  closes_hole (lefts c05_path) SBrace = true /\
+  (* one level up, in the formula body after [c], the brace is a stray one *)
+  closes_hole (lefts (firstn 2 c05_path)) SBrace = false.
+Proof. vm_compute. repeat split. Qed.
+
+(** the brace in a formula body, with the conclusion evaluated independently *)
+Example C05_fault_closing_brace_instance :
+  let path := firstn 2 c05_path in
+  let l1 := [Text [] [99]] in
+  let l2 := [Mac [32] [116;101;120;116;98;102] [] [Grp [] [Text [] [100]; Text [32] [101]] []]; Text [32] [102]] in
+  ok_doc default_ctx (zdoc path l1 l2 [32]) = true /\
+  unparse (zdoc path l1 l2 [32]) = unparse (zdoc c05_path c05_l1 c05_l2 [32]) /\
+  exists e, parse_top (zleft path l1 ++ stray_text SBrace ++ zright path l2 [32]) false default_ctx
+                      (walker_state default_ctx) = PErr e 8
+            /\ pe_pos e = Some 7%nat /\ pe_what e = 2%nat.
+Proof. vm_compute. repeat split. eexists. repeat split. Qed.
+
+(** [ab {c} $x$ d]: an opening brace / [\begin{zq}] / [\(] inserted after [ab];
+    for [\(] the side condition fails on the rest [ {c} $x$ d] (it contains a
+    formula) but holds in front of [ {c} d] *)
+Example C05_fault_opening_nonvacuous :
+  let l1 := [Text [] [97;98]] in
+  let l2 := [Grp [32] [Text [] [99]] []; Math [32] MDollar [Text [] [120]] []; Text [32] [100]] in
+  let l2' := [Grp [32] [Text [] [99]] []; Text [32] [100]] in
+  let ps0 := walker_state default_ctx in
+  ok_doc default_ctx {| d_items := l1 ++ l2; d_trail := [] |} = true /\
+  (exists e, parse_top (unparse_items l1 ++ open_text OBrace ++ unparse_items l2) false default_ctx ps0
+             = PErr e 13 /\ pe_pos e = Some 3%nat /\ pe_what e = 6%nat) /\
+  (open_state default_ctx ps0 (OBegin [122;113]) = ps0 /\ envname_ok [122;113] = true /\
+   (exists sp, get_env_spec default_ctx [122;113] = Some sp /\ sp_args sp = APStd [])) /\
+  (exists e, parse_top (unparse_items l1 ++ open_text (OBegin [122;113]) ++ unparse_items l2) false default_ctx ps0
+             = PErr e 22 /\ pe_pos e = Some 12%nat /\ pe_what e = 6%nat) /\
+  ok_items default_ctx (ps_enter_math ps0 (Some (m_open MParen))) l2 None = false /\
+  ok_doc default_ctx {| d_items := l1 ++ l2'; d_trail := [] |} = true /\
+  ok_items default_ctx (ps_enter_math ps0 (Some (m_open MParen))) l2' None = true /\
+  (exists e, parse_top (unparse_items l1 ++ open_text (OMath MParen) ++ unparse_items l2') false default_ctx ps0
+             = PErr e 10 /\ pe_pos e = Some 4%nat /\ pe_what e = 6%nat).
+Proof.
+  vm_compute. split; [reflexivity|]. split; [eexists; repeat split|].
+  split; [split; [reflexivity|split; [reflexivity|eexists; split; reflexivity]]|].
+  split; [eexists; repeat split|]. split; [reflexivity|].
+  split; [reflexivity|]. split; [reflexivity|]. eexists; repeat split.
+Qed.
+
+(** nested: in [a {b c} \(d e\) f] an opening [\(] inserted between [b] and [ c]
+    runs into the group's [}] (offset 8 of the faulted text: unexpected closing
+    brace); an opening [{] or [\begin{zq}] inserted between [d] and [ e] runs into
+    [\)] (unexpected closing math delimiter) *)
+Example C05_fault_opening_nested_nonvacuous :
+  let fg := FGrp [Text [] [97]] [32] [] [Math [32] MParen [Text [] [100]; Text [32] [101]] []; Text [32] [102]] in
+  let fm := FMath [Text [] [97]; Grp [32] [Text [] [98]; Text [32] [99]] []] [32] MParen [] [Text [32] [102]] in
+  let ps0 := walker_state default_ctx in
+  ok_doc default_ctx (zdoc [fg] [Text [] [98]] [Text [32] [99]] []) = true /\
+  unparse (zdoc [fg] [Text [] [98]] [Text [32] [99]] []) = [97;32;123;98;32;99;125;32;92;40;100;32;101;92;41;32;102] /\
+  unparse (zdoc [fm] [Text [] [100]] [Text [32] [101]] []) = unparse (zdoc [fg] [Text [] [98]] [Text [32] [99]] []) /\
+  ok_doc default_ctx (zdoc [fm] [Text [] [100]] [Text [32] [101]] []) = true /\
+  (exists e, parse_top (zleft [fg] [Text [] [98]] ++ open_text (OMath MParen) ++ zright [fg] [Text [32] [99]] [])
+                       false default_ctx ps0 = PErr e 9 /\ pe_pos e = Some 8%nat /\ pe_what e = 2%nat) /\
+  (exists e, parse_top (zleft [fm] [Text [] [100]] ++ open_text OBrace ++ zright [fm] [Text [32] [101]] [])
+                       false default_ctx ps0 = PErr e 16 /\ pe_pos e = Some 14%nat /\ pe_what e = 4%nat) /\
+  (exists e, parse_top (zleft [fm] [Text [] [100]] ++ open_text (OBegin [122;113]) ++ zright [fm] [Text [32] [101]] [])
+                       false default_ctx ps0 = PErr e 25 /\ pe_pos e = Some 23%nat /\ pe_what e = 4%nat).
+Proof.
+  vm_compute. split; [reflexivity|]. split; [reflexivity|]. split; [reflexivity|]. split; [reflexivity|].
+  split; [eexists; repeat split|]. split; [eexists; repeat split|]. eexists; repeat split.
+Qed.
+
+(** [a $b {c {d e} f} g$ h]: a brace inserted between [d] and [ e] closes the
+    inner group, the inner group's brace closes the outer one, the outer one's
+    brace (offset 16 of the faulted text) is rejected in the formula body; and
+    [a \textbf{b {c d} e} f]: the same with a macro argument as the outer construct *)
+Example C05_fault_closing_brace_in_groups_nonvacuous :
+  let outer := [FMath [Text [] [97]] [32] MDollar [] [Text [32] [104]]] in
+  let chain := [FGrp [Text [] [98]] [32] [] [Text [32] [103]];
+                FGrp [Text [] [99]] [32] [] [Text [32] [102]]] in
+  let l1 := [Text [] [100]] in let l2 := [Text [32] [101]] in
+  let chain2 := [FMac [Text [] [97]] [32] [116;101;120;116;98;102] [] [] [] [] [Text [32] [102]];
+                 FGrp [Text [] [98]] [32] [] [Text [32] [101]]] in
+  let m1 := [Text [] [99]] in let m2 := [Text [32] [100]] in
+  ok_doc default_ctx (zdoc (outer ++ chain) l1 l2 []) = true /\
+  unparse (zdoc (outer ++ chain) l1 l2 []) = [97;32;36;98;32;123;99;32;123;100;32;101;125;32;102;125;32;103;36;32;104] /\
+  closes_hole (lefts outer) SBrace = false /\
+  match early chain l1 l2 with
+  | (L, W, R) => (length (lp_text (lefts outer)) + length (unparse_items L) + length W)%nat
+  end = 16%nat /\
+  (exists e, parse_top (zleft (outer ++ chain) l1 ++ [125] ++ zright (outer ++ chain) l2 []) false default_ctx
+                       (walker_state default_ctx) = PErr e 17
+             /\ pe_pos e = Some 16%nat /\ pe_what e = 2%nat) /\
+  forallb (thru default_ctx false) chain2 = true /\ ok_doc default_ctx (zdoc chain2 m1 m2 []) = true /\
+  unparse (zdoc chain2 m1 m2 []) = [97;32;92;116;101;120;116;98;102;123;98;32;123;99;32;100;125;32;101;125;32;102] /\
+  (exists e, parse_top (zleft chain2 m1 ++ [125] ++ zright chain2 m2 []) false default_ctx
+                       (walker_state default_ctx) = PErr e 21
+             /\ pe_pos e = Some 20%nat /\ pe_what e = 2%nat).
+Proof.
+  vm_compute. split; [reflexivity|]. split; [reflexivity|]. split; [reflexivity|]. split; [reflexivity|].
+  split; [eexists; repeat split|]. split; [reflexivity|]. split; [reflexivity|]. split; [reflexivity|].
+  eexists; repeat split.
+Qed.
+
+(** [a \(b c\) d]: [\)] inserted between [b] and [ c] closes the formula, [ c] is
+    read as text, the formula's own [\)] (offset 9 of the faulted text) is rejected *)
+Example C05_fault_closing_math_same_nonvacuous :
+  let f := FMath [Text [] [97]] [32] MParen [] [Text [32] [100]] in
+  let l1 := [Text [] [98]] in let l2 := [Text [32] [99]] in
+  ok_doc default_ctx (zdoc [f] l1 l2 []) = true /\
+  unparse (zdoc [f] l1 l2 []) = [97;32;92;40;98;32;99;92;41;32;100] /\
+  ok_items default_ctx (walker_state default_ctx) l2 (Some 92) = true /\
+  exists e, parse_top (zleft [f] l1 ++ m_close MParen ++ zright [f] l2 []) false default_ctx (walker_state default_ctx)
+            = PErr e 11 /\ pe_pos e = Some 9%nat /\ pe_what e = 4%nat.
+Proof. vm_compute. repeat split. eexists. repeat split. Qed.
+
+(** [a {b {c d} e} f]: [{] inserted between [c] and [ d]: the outer group (opened
+    at offset 2) is never closed, error 6 located at offset 3, raised at the end;
+    and the same chain inside [\( \)]: rejected at [\)] *)
+Example C05_fault_opening_brace_in_groups_nonvacuous :
+  let chain := [FGrp [Text [] [97]] [32] [] [Text [32] [102]]; FGrp [Text [] [98]] [32] [] [Text [32] [101]]] in
+  let g := FMath [] [] MParen [] [] in
+  let chain' := [FGrp [Text [] [97]] [32] [] [Text [32] [102]]; FGrp [Text [] [98]] [32] [] [Text [32] [101]]] in
+  let l1 := [Text [] [99]] in let l2 := [Text [32] [100]] in
+  ok_doc default_ctx (zdoc chain l1 l2 []) = true /\
+  unparse (zdoc chain l1 l2 []) = [97;32;123;98;32;123;99;32;100;125;32;101;125;32;102] /\
+  (exists e, parse_top (zleft chain l1 ++ [123] ++ zright chain l2 []) false default_ctx (walker_state default_ctx)
+             = PErr e 16 /\ pe_pos e = Some 3%nat /\ pe_what e = 6%nat) /\
+  ok_doc default_ctx (zdoc (([] ++ [g]) ++ chain') l1 l2 []) = true /\
+  unparse (zdoc (([] ++ [g]) ++ chain') l1 l2 []) = [92;40;97;32;123;98;32;123;99;32;100;125;32;101;125;32;102;92;41] /\
+  (exists e, parse_top (zleft (([] ++ [g]) ++ chain') l1 ++ [123] ++ zright (([] ++ [g]) ++ chain') l2 []) false
+                       default_ctx (walker_state default_ctx)
+             = PErr e 20 /\ pe_pos e = Some 18%nat /\ pe_what e = 4%nat).
+Proof.
+  vm_compute. split; [reflexivity|]. split; [reflexivity|]. split; [eexists; repeat split|].
+  split; [reflexivity|]. split; [reflexivity|]. eexists; repeat split.
+Qed.
+
+(** [a $b c$ d]: [$] inserted between [b] and [ c]: [$b$], then [ c], then the
+    old closing [$] opens a formula [ d] that never ends (error 6 located at
+    offset 8); and the same inside a group: rejected at the group's [}] *)
+Example C05_fault_dollar_in_dollars_nonvacuous :
+  let l1 := [Text [] [98]] in let l2 := [Text [32] [99]] in
+  let g := FGrp [] [] [] [] in
+  ok_doc default_ctx (zdoc [FMath [Text [] [97]] [32] MDollar [] [Text [32] [100]]] l1 l2 []) = true /\
+  (exists e, parse_top (zleft [FMath [Text [] [97]] [32] MDollar [] [Text [32] [100]]] l1 ++ [36]
+                        ++ zright [FMath [Text [] [97]] [32] MDollar [] [Text [32] [100]]] l2 []) false
+                       default_ctx (walker_state default_ctx)
+             = PErr e 10 /\ pe_pos e = Some 8%nat /\ pe_what e = 6%nat) /\
+  ok_doc default_ctx (zdoc (([] ++ [g]) ++ [FMath [Text [] [97]] [32] MDollar [] [Text [32] [100]]]) l1 l2 []) = true /\
+  (exists e, parse_top (zleft (([] ++ [g]) ++ [FMath [Text [] [97]] [32] MDollar [] [Text [32] [100]]]) l1 ++ [36]
+                        ++ zright (([] ++ [g]) ++ [FMath [Text [] [97]] [32] MDollar [] [Text [32] [100]]]) l2 [])
+                       false default_ctx (walker_state default_ctx)
+             = PErr e 12 /\ pe_pos e = Some 11%nat /\ pe_what e = 2%nat).
+Proof.
+  vm_compute. split; [reflexivity|]. split; [eexists; repeat split|]. split; [reflexivity|]. eexists; repeat split.
+Qed.
+
+(** the any-suffix forms: left context [x {y \textbf{] + items [a] + whitespace +
+    [\)] + garbage [{$] (nothing after the token is well formed); and left context
+    [\(] + [a] + [{] + [b] + [ ] + [\)] + garbage [}}] *)
+Example C05_fault_any_suffix_nonvacuous :
+  let path := [LGrp [Text [] [120]] [32]; LMac [Text [] [121]] [32] [116;101;120;116;98;102] [] []] in
+  let ps0 := walker_state default_ctx in
+  ok_lpath default_ctx ps0 path (Some 97) = true /\
+  ok_items default_ctx (lp_state default_ctx ps0 path) [Text [] [97]] (Some 32) = true /\
+  closes_hole path (SMClose MParen) = false /\
+  (exists e, parse_top (lp_text path ++ [97] ++ [32] ++ stray_text (SMClose MParen) ++ [123;36]) false default_ctx ps0
+             = PErr e 17 /\ pe_pos e = Some 15%nat /\ pe_what e = 4%nat) /\
+  (let path2 := [LMath [] [] MParen] in
+   ok_lpath default_ctx ps0 path2 (Some 97) = true /\
+   ok_items default_ctx (lp_state default_ctx ps0 path2) [Text [] [97]] (Some 123) = true /\
+   ok_items default_ctx (open_state default_ctx (lp_state default_ctx ps0 path2) OBrace) [Text [] [98]] (Some 32) = true /\
+   exists e, parse_top (lp_text path2 ++ [97] ++ [] ++ open_text OBrace ++ [98] ++ [32]
+                        ++ stray_text (SMClose MParen) ++ [125;125]) false default_ctx ps0
+             = PErr e 8 /\ pe_pos e = Some 6%nat /\ pe_what e = 4%nat).
+Proof.
+  vm_compute. split; [reflexivity|]. split; [reflexivity|]. split; [reflexivity|]. split; [eexists; repeat split|].
+  split; [reflexivity|]. split; [reflexivity|]. split; [reflexivity|]. eexists; repeat split.
+Qed.
+
+(** display formulas [$$ $$] (the fourth math kind).  [a $$b c$$ d]: a stray [}]
+    / [\)] / [\]] / [\end{zq}] between [b] and [ c] is rejected where it stands
+    (offset 5; the path goes through a [$$ $$] formula); [$$] inserted there
+    closes the formula, [ c] is read as text and the formula's own [$$] opens a
+    formula [ d] that never ends (error 6 located at offset 11, raised at the
+    end); [$$] inserted right at the START of the body (allowed for [$$], not
+    for [$]) likewise; the same formula inside a group: the new formula runs
+    into the group's [}] (offset 14) *)
+Example C05_fault_dollars_nonvacuous :
+  let f := FMath [Text [] [97]] [32] MDollars [] [Text [32] [100]] in
+  let fm := FMath [Text [] [97]] [32] MDollars [] [] in
+  let g := FGrp [] [] [] [] in
+  let l1 := [Text [] [98]] in let l2 := [Text [32] [99]] in
+  let ps0 := walker_state default_ctx in
+  ok_doc default_ctx (zdoc [fm] l1 l2 []) = true /\
+  unparse (zdoc [fm] l1 l2 []) = [97;32;36;36;98;32;99;36;36] /\
+  forallb (fun c =>
+    negb (closes_hole (lefts [fm]) c) &&
+    match parse_top (zleft [fm] l1 ++ stray_text c ++ zright [fm] l2 []) false default_ctx ps0 with
+    | PErr e p => Nat.eqb p (5 + length (stray_text c)) && Nat.eqb (pe_what e) (stray_what c)
+                  && match pe_pos e with Some q => Nat.eqb q 5 | None => false end
+    | _ => false end) [SBrace; SMClose MParen; SMClose MBracket; SEnd [122;113]] = true /\
+  dollar_kind MDollars /\
+  ok_doc default_ctx (zdoc [f] l1 l2 []) = true /\
+  unparse (zdoc [f] l1 l2 []) = [97;32;36;36;98;32;99;36;36;32;100] /\
+  ok_items default_ctx ps0 l2 (hd_error ([] ++ m_close MDollars)) = true /\
+  ok_items default_ctx (ps_enter_math ps0 (Some (m_open MDollars))) [Text [32] [100]] None = true /\
+  (exists e, parse_top (zleft [f] l1 ++ m_close MDollars ++ zright [f] l2 []) false default_ctx ps0
+             = PErr e 13 /\ pe_pos e = Some 11%nat /\ pe_what e = 6%nat) /\
+  ok_doc default_ctx (zdoc [f] [] (l1 ++ l2) []) = true /\
+  (exists e, parse_top (zleft [f] [] ++ m_close MDollars ++ zright [f] (l1 ++ l2) []) false default_ctx ps0
+             = PErr e 13 /\ pe_pos e = Some 11%nat /\ pe_what e = 6%nat) /\
+  ok_doc default_ctx (zdoc (([] ++ [g]) ++ [f]) l1 l2 []) = true /\
+  (exists e, parse_top (zleft (([] ++ [g]) ++ [f]) l1 ++ m_close MDollars ++ zright (([] ++ [g]) ++ [f]) l2 [])
+                       false default_ctx ps0
+             = PErr e 15 /\ pe_pos e = Some 14%nat /\ pe_what e = 2%nat).
+Proof.
+  vm_compute. split; [reflexivity|]. split; [reflexivity|]. split; [reflexivity|]. split; [right; reflexivity|].
+  split; [reflexivity|]. split; [reflexivity|]. split; [reflexivity|]. split; [reflexivity|].
+  split; [eexists; repeat split|]. split; [reflexivity|]. split; [eexists; repeat split|].
+  split; [reflexivity|]. eexists; repeat split.
+Qed.
+
+(** [$$] as an unmatched OPENING delimiter: inserted after [ab] in [ab {c} d]
+    (never closed: error 6 located at offset 4, raised at the end of input) and
+    between [b] and [ c] in [a {b c} \(d e\) f] (runs into the group's [}] at
+    offset 8 of the faulted text: unexpected closing brace) *)
+Example C05_fault_opening_dollars_nonvacuous :
+  let l1 := [Text [] [97;98]] in
+  let l2 := [Grp [32] [Text [] [99]] []; Text [32] [100]] in
+  let fg := FGrp [Text [] [97]] [32] [] [Math [32] MParen [Text [] [100]; Text [32] [101]] []; Text [32] [102]] in
+  let ps0 := walker_state default_ctx in
+  ok_doc default_ctx {| d_items := l1 ++ l2; d_trail := [] |} = true /\
+  ok_items default_ctx (ps_enter_math ps0 (Some (m_open MDollars))) l2 None = true /\
+  (exists e, parse_top (unparse_items l1 ++ open_text (OMath MDollars) ++ unparse_items l2) false default_ctx ps0
+             = PErr e 10 /\ pe_pos e = Some 4%nat /\ pe_what e = 6%nat) /\
+  ok_doc default_ctx (zdoc [fg] [Text [] [98]] [Text [32] [99]] []) = true /\
+  (exists e, parse_top (zleft [fg] [Text [] [98]] ++ open_text (OMath MDollars) ++ zright [fg] [Text [32] [99]] [])
+                       false default_ctx ps0 = PErr e 9 /\ pe_pos e = Some 8%nat /\ pe_what e = 2%nat).
+Proof.
+  vm_compute. split; [reflexivity|]. split; [reflexivity|]. split; [eexists; repeat split|].
+  split; [reflexivity|]. eexists; repeat split.
+Qed.
+
+(** the side conditions [k <> MDollar], [k <> MDollars] of [stray_wf] and of
+    [C05_fault_closing_math_same_partial] are NECESSARY: [$] / [$$] inserted
+    between [a] and [ b] at top level ([a$ b], [a$$ b]) or in a [\( \)] formula
+    ([\(a$ b\)], [\(a$$ b\)]) is not the closing delimiter of the hole, yet it
+    is not rejected where it stands (error 4 at offset 1 / 3): it OPENS a
+    formula, which is never closed (error 6 located after it, raised at the
+    end of input) / runs into [\)] (error 4 located THERE) *)
+Example C05_dollars_are_not_closing_tokens :
+  let fp := FMath [] [] MParen [] [] in
+  let l1 := [Text [] [97]] in let l2 := [Text [32] [98]] in
+  let ps0 := walker_state default_ctx in
+  ok_doc default_ctx (zdoc [] l1 l2 []) = true /\ ok_doc default_ctx (zdoc [fp] l1 l2 []) = true /\
+  closes_hole (lefts []) (SMClose MDollar) = false /\ closes_hole (lefts []) (SMClose MDollars) = false /\
+  closes_hole (lefts [fp]) (SMClose MDollar) = false /\ closes_hole (lefts [fp]) (SMClose MDollars) = false /\
+  (exists e, parse_top (zleft [] l1 ++ stray_text (SMClose MDollar) ++ zright [] l2 []) false default_ctx ps0
+             = PErr e 4 /\ pe_pos e = Some 2%nat /\ pe_what e = 6%nat) /\
+  (exists e, parse_top (zleft [] l1 ++ stray_text (SMClose MDollars) ++ zright [] l2 []) false default_ctx ps0
+             = PErr e 5 /\ pe_pos e = Some 3%nat /\ pe_what e = 6%nat) /\
+  (exists e, parse_top (zleft [fp] l1 ++ stray_text (SMClose MDollar) ++ zright [fp] l2 []) false default_ctx ps0
+             = PErr e 8 /\ pe_pos e = Some 6%nat /\ pe_what e = 4%nat) /\
+  (exists e, parse_top (zleft [fp] l1 ++ stray_text (SMClose MDollars) ++ zright [fp] l2 []) false default_ctx ps0
+             = PErr e 9 /\ pe_pos e = Some 7%nat /\ pe_what e = 4%nat).
+Proof.
+  vm_compute. split; [reflexivity|]. split; [reflexivity|]. split; [reflexivity|]. split; [reflexivity|].
+  split; [reflexivity|]. split; [reflexivity|]. split; [eexists; repeat split|]. split; [eexists; repeat split|].
+  split; [eexists; repeat split|]. eexists; repeat split.
+Qed.
+
+Print Assumptions C05_zdoc_text.
+Print Assumptions C05_fault_closing_partial.
+Print Assumptions C05_fault_closing_any_suffix_partial.
+Print Assumptions C05_fault_opening_partial.
+Print Assumptions C05_fault_opening_nested_partial.
+Print Assumptions C05_fault_opening_any_suffix_partial.
+Print Assumptions C05_fault_closing_brace_in_groups_partial.
+Print Assumptions C05_fault_closing_math_same_partial.
+Print Assumptions C05_fault_dollar_in_dollars_partial.
+Print Assumptions C05_fault_dollar_in_dollars_nested_partial.
+Print Assumptions C05_fault_opening_brace_in_groups_partial.
+Print Assumptions C05_fault_opening_brace_in_groups_math_partial.
